@@ -32,8 +32,9 @@ Inductive expr :=
 | EDot (x : expr) (name : string) (p : pos)
 | ECall (fn : expr) (args : list arg) (p : pos)
 | ELambda (fid : nat) (params : list param) (body : expr) (p : pos)
-| EComp (curly : bool) (body : expr) (bodyv : expr) (cp : pos) (cls : list clause)
-    (* list comprehension: body, bodyv ignored; dict comprehension: body = key, bodyv = value, cp = colon *)
+| EComp (curly : bool) (body : expr) (bodyv : expr) (cp : pos) (cls : list clause) (slots : list nat)
+    (* list comprehension: body, bodyv ignored; dict comprehension: body = key, bodyv = value, cp = colon;
+       slots: local slots of the comprehension's variables, filled by Compile.number_* (ignored by Ref) *)
 | ESlice (x : expr) (lo hi step : option expr) (p : pos)
 with arg :=
 | APos (e : expr)
@@ -116,7 +117,7 @@ Fixpoint find_fun_expr (fid : nat) (e : expr) {struct e} : option fundef :=
       if Nat.eqb id fid then Some {| fd_name := "lambda"; fd_params := ps; fd_body := [SReturn (Some body)]; fd_pos := p |}
       else match first_some (fun q => match q with PDefault _ e => find_fun_expr fid e | _ => None end) ps with
            | Some d => Some d | None => find_fun_expr fid body end
-  | EComp _ b bv _ cls =>
+  | EComp _ b bv _ cls _ =>
       match find_fun_expr fid b with Some d => Some d | None =>
       match find_fun_expr fid bv with Some d => Some d | None =>
         first_some (fun c => match c with
